@@ -540,6 +540,24 @@ def _check_case(spec, df, table, formula, intercept, terms, rank, output):
                               f"j = names.index({label!r})\nbase = numpy.array({base.tolist()!r})\n"
                               f"assert any(numpy.allclose(col(j), s * base, rtol=1e-9, atol=1e-12) for s in {cands!r}), col(j)\n"))
                 break
+    # ---- the attached spec denotes the same columns: re-materializing it on the same data must reproduce every column
+    # (a label that held its product on the first build must still hold it when the recorded structure is replayed)
+    if not fails:
+        try:
+            mm2 = mm.model_spec.get_model_matrix(df, context={"np": numpy})
+            X2, problem2 = _to_float_matrix(mm2, output)
+            names2 = list(mm2.model_spec.column_names)
+            if X2 is None or names2 != names or X2.shape != X.shape or not numpy.allclose(X2, X, rtol=RTOL, atol=ATOL, equal_nan=True):
+                bad = "names/shape" if (X2 is None or names2 != names or X2.shape != X.shape) else names[[j for j in range(len(names)) if not numpy.allclose(X2[:, j], X[:, j], rtol=RTOL, atol=ATOL, equal_nan=True)][0]]
+                fails.append(("C02.e2e.replay.label-product", tag or "spec-replay-differs",
+                              f"re-materializing mm.model_spec on the same data changes column {bad!r}",
+                              "mm2 = mm.model_spec.get_model_matrix(df, context={'np': numpy})\n"
+                              f"raw2 = mm2.toarray() if {output!r} == 'sparse' else numpy.asarray(mm2)\n"
+                              "assert list(mm2.model_spec.column_names) == names\n"
+                              "assert numpy.allclose(numpy.asarray(raw2, dtype=float), numpy.asarray(raw, dtype=float), rtol=1e-9, atol=1e-12, equal_nan=True)\n"))
+        except Exception as e:  # noqa: BLE001
+            fails.append(("C02.e2e.replay.label-product", tag or f"spec-replay-raises-{type(e).__name__}", f"{type(e).__name__}: {e}",
+                          "mm.model_spec.get_model_matrix(df, context={'np': numpy})\n"))
     return "checked", fails
 
 
